@@ -637,6 +637,7 @@ def explore_config(part, config, how, seed, reported):
                                                      ('bound%s' % how.get('bound') if how.get('bound') is not None else 'plain')))
             else:
                 part.count('configs_hit_schedule_cap')
+                part.hist('configs_that_hit_the_schedule_cap', key)
                 if len(config['scripts']) <= 2:
                     part.count('configs_1_or_2_clients_hit_schedule_cap')
         else:
@@ -1069,7 +1070,7 @@ def build_jobs(run):
         return len(''.join(scripts)) ** 3 * VAR_COST[variant] * (4 if len(scripts) > 2 else 1)
 
     def sleep_job(scripts, variant):
-        c = cap if q or len(scripts) > 2 else 2 * cap
+        c = cap if q or len(scripts) > 2 else 5 * cap
         jobs.append((weight(scripts, variant), [(cfg(scripts, variant), {'kind': 'sleep', 'cap': c})]))
 
     # 1 client: every script, every fault variant: sleep sets; plain DFS cross-check on the shorter ones
